@@ -5,11 +5,17 @@ Technique: explicit TLA+ specification checked with TLC + table generation bindi
  (1) TLC, exhaustive: spec/Codec.tla transcribes the DISPATCH STRUCTURE of ExtendedTypeSerDes / TypeCodec /
      ContainerCodec / SerDes.is_primitive / BatchResult.to_dict,from_dict over an abstract value grammar (leaves are
      kinds).  One TLC state per value of Val(D); invariants RoundTrip (with the known-defect escape KnownNonStrKey),
-     NoSilentAlteration, LookAlikeSafe, RejectExact, NoDecodeError, PlainIffPrimitive, EveryNestedWrapped, KnownIsReal.
+     NoSilentAlteration, LookAlikeSafe, RejectExact, NoDecodeError, PlainIffPrimitive, EveryNestedWrapped, KnownIsReal,
+     KnownOnlyKeys (a value with coerced keys differs from its round trip by the coercion ONLY: the escape hides nothing else).
      Configs: Codec_d1_full (depth 1, every leaf kind x every key kind), Codec_d2 (depth 2), Codec_d2_rej (rejection
      paths), Codec_d3_small (depth 3, width 1); thorough adds Codec_d2_wide and Codec_d3.
-     Codec_probe.cfg shows that WITHOUT the escape the key-coercion scenario is reachable.
-     Codec_err.cfg adds batch items whose ErrorObject has every field None.
+     Variant: spec/variant.json "CodecFixKeys" -> constant FixKeys of every cfg (written to the run's work directory).
+     TRUE = code as repaired in /repo caa84cb (a dict with any non-string key is rejected; KnownNonStrKey is FALSE for every
+     value, so every invariant holds WITHOUT escape); FALSE = pinned original (keys coerced, escape active).
+     Codec_probe.cfg always runs the pinned original WITHOUT the escape: the key-coercion scenario must stay reachable
+     (regression probe of the model); thorough also re-checks Codec_d1_full under the other variant.
+     Codec_err.cfg adds batch items whose ErrorObject has every field None (known finding batchitem-empty-error-dropped,
+     reported under that signature from both the TLC side and the code side).
  (2) Binding G: every state is dumped by TLC as one JSON line [shape, path in {plain, envelope, reject}, rt, known,
      look, dec (the value the model says comes back), wire (the token tree of the text)].  Every abstract leaf is
      concretised from the boundary pools below and the REAL code is run: ExtendedTypeSerDes().serialize/deserialize
@@ -17,6 +23,8 @@ Technique: explicit TLA+ specification checked with TLC + table generation bindi
      Checked per case: model path == code path (raise / no envelope at root / envelope at root); token tree of the real
      text == model wire; abstract(real decoded value) == model dec; typed exact equality of the decoded value
      (types at every level, Decimal.as_tuple(), -0.0, NaN-by-kind, utcoffset, fold) or a rejection.
+     Signature non-string-dict-key: under the repaired variant it is reported only when the real code does NOT reject a
+     dict with an int/bool/None/float key (a regression of the repair); under the pinned original for every coerced value.
  (3) Seeded random values of the same grammar, deeper (depth <= 3 quick / 5 thorough), leaves from the pools or random
      inside the kind; same oracle (typed-equal or rejected; rejected iff a tuple/unwritable key or unsupported leaf).
 
@@ -57,7 +65,11 @@ from datetime import date, datetime, timedelta, timezone
 from decimal import Decimal
 
 from lib.common import REPO
-from lib.tlcrun import SPEC_DIR, MachineryError, require_ok, run_tlc
+from lib.tlcrun import SPEC_DIR, MachineryError, require_ok, run_tlc, work_dir
+
+# which variant of the code the model describes: True = ContainerCodec.encode as repaired in /repo caa84cb (every
+# non-string dict key is rejected), False = pinned original (int/bool/None/float keys silently coerced)
+FIX_KEYS = bool(json.load(open(os.path.join(SPEC_DIR, "variant.json"))).get("CodecFixKeys", False))
 
 sys.path.insert(0, os.path.join(REPO, "src"))
 
@@ -241,12 +253,15 @@ def has_coerced_key(v):
     return any_node(v, lambda x: type(x) is dict and any(is_coercible_key(k) for k in x))
 
 
-def expected_reject(v):
-    """Values the serializer is expected to refuse: unsupported leaf, tuple key, key json cannot write."""
+def expected_reject(v, fix=None):
+    """Values the serializer is expected to refuse: unsupported leaf, tuple key, key json cannot write; with the
+    repaired code (variant CodecFixKeys) every non-string key."""
+    fix = FIX_KEYS if fix is None else fix
+
     def bad(x):
         t = type(x)
         if t is dict:
-            return any(not (type(k) is str or is_coercible_key(k)) for k in x)
+            return any(not (type(k) is str or (is_coercible_key(k) and not fix)) for k in x)
         return not (x is None or t in (bool, int, float, str, bytes, uuid.UUID, Decimal, datetime, date, list, tuple,
                                        BatchResult))
     return any_node(v, bad)
@@ -559,7 +574,7 @@ def run_case(ctx, st, val, origin, vec=None, wire=None, may_reject=False):
     coerced = has_coerced_key(val)
     exp_rej = expected_reject(val)
     if vec is not None:                                            # cross-check the two independent classifiers
-        if (vec["path"] == "reject") != exp_rej or vec["known"] != coerced:
+        if (vec["path"] == "reject") != exp_rej or vec["known"] != (coerced and not FIX_KEYS):
             raise MachineryError(f"oracle/model classification differs for {tr[:300]}: model path={vec['path']} "
                                  f"known={vec['known']}, python expected_reject={exp_rej} coerced={coerced}")
     # ---- rejected
@@ -573,9 +588,15 @@ def run_case(ctx, st, val, origin, vec=None, wire=None, may_reject=False):
                    f"model path={vec['path'] if vec else 'n/a'}; value {tr[:300]}", val, s, origin)
         return
     if exp_rej:
-        report(ctx, st, "model-mismatch" if vec is not None else "unsupported-accepted",
-               f"value that must be refused (unsupported leaf / tuple or unwritable key) was serialized to {s[:200]}; "
-               f"value {tr[:300]}", val, s, origin)
+        if coerced and not expected_reject(val, fix=False):
+            # regression of the repair caa84cb: the only reason to refuse is an int/bool/None/float key
+            report(ctx, st, SIG_KEYS, f"a dict with a non-string key is NOT rejected by serialize: {tr[:300]} -> text {s[:200]}",
+                   val, s, origin)
+        else:
+            report(ctx, st, "model-mismatch" if vec is not None else "unsupported-accepted",
+                   f"value that must be refused (unsupported leaf / tuple or unwritable key) was serialized to {s[:200]}; "
+                   f"value {tr[:300]}", val, s, origin)
+        vec = wire = None                                          # the model has no prediction beyond "reject"
     # ---- text
     root = json.loads(s)
     has_env = isinstance(root, dict) and "t" in root and "v" in root
@@ -685,10 +706,24 @@ def iter_vectors(out_path):
                     continue
 
 
-def run_model(ctx, cfg, timeout_s, extra=None, expect_violation=None):
-    name = "c15-" + cfg[:-4]
-    res = run_tlc("Codec", cfg, name, timeout_s=timeout_s, coverage=False, deadlock=False, extra=extra)
-    label = f"Codec.tla {cfg}: one state per value of Val(D), all invariants"
+def variant_cfg(cfg, name, fix_keys):
+    """The cfg with FixKeys set to the wanted variant, written to the run's work directory."""
+    txt = open(os.path.join(SPEC_DIR, cfg)).read()
+    txt, n = re.subn(r"^(\s*FixKeys\s*=\s*)(TRUE|FALSE)", lambda m: m.group(1) + ("TRUE" if fix_keys else "FALSE"), txt, flags=re.M)
+    if n != 1:
+        raise MachineryError(f"{cfg}: no FixKeys assignment")
+    path = os.path.join(work_dir(name), cfg)
+    with open(path, "w") as f:
+        f.write(txt)
+    return path
+
+
+def run_model(ctx, cfg, timeout_s, extra=None, expect_violation=None, fix_keys=None, tag=""):
+    """expect_violation: {invariant: signature under which its violation is reported} (default 'model-<invariant>')."""
+    fix_keys = FIX_KEYS if fix_keys is None else fix_keys
+    name = "c15-" + cfg[:-4] + tag
+    res = run_tlc("Codec", variant_cfg(cfg, name, fix_keys), name, timeout_s=timeout_s, coverage=False, deadlock=False, extra=extra)
+    label = f"Codec.tla {cfg} FixKeys={fix_keys}: one state per value of Val(D), all invariants"
     require_ok(res, label)
     if res.error_kind == "deadlock":
         raise MachineryError(f"{cfg}: deadlock reported although checking is off")
@@ -704,12 +739,10 @@ def run_model(ctx, cfg, timeout_s, extra=None, expect_violation=None):
             continue
         seen.add(inv)
         n = sum(1 for i, _ in viols if i == inv)
-        if inv == expect_violation:
-            ctx.violation("model-" + inv, f"TLC ({cfg}): {inv} violated for {n} value(s) of the domain, first: "
-                          f"{' '.join(cex.split())[:400]}", {"kind": "tlc", "cfg": cfg, "invariant": inv, "counterexample": cex})
-        else:
-            ctx.violation("model-" + inv, f"TLC ({cfg}): invariant {inv} violated: {' '.join(cex.split())[:400]}",
-                          {"kind": "tlc", "cfg": cfg, "invariant": inv, "counterexample": cex})
+        sig = (expect_violation or {}).get(inv, "model-" + inv)
+        ctx.violation(sig, f"TLC ({cfg}, FixKeys={fix_keys}): invariant {inv} violated for {n} value(s) of the domain, first: "
+                           f"{' '.join(cex.split())[:400]}",
+                      {"kind": "tlc", "cfg": cfg, "FixKeys": fix_keys, "invariant": inv, "counterexample": cex})
     return res, complete
 
 
@@ -755,27 +788,39 @@ def model_part(ctx, st):
         timings[cfg] = {"tlc_s": round(t1 - t0, 1), "bind_s": round(time.time() - t1, 1), "vectors": n}
     # batch items with an all-None ErrorObject (own config: a violation here must not stop the main runs)
     t0 = time.time()
-    res, _ = run_model(ctx, "Codec_err.cfg", 120, extra=["-continue"], expect_violation="InvEmptyErrorRoundTrip")
+    res, _ = run_model(ctx, "Codec_err.cfg", 120, extra=["-continue"],
+                       expect_violation={"InvEmptyErrorRoundTrip": SIG_EMPTYERR})     # same signature as the code side
     n = bind(ctx, st, "Codec_err.cfg", res.out_path, 4 if ctx.quick else 12)
     if n != res.distinct:
         raise MachineryError(f"Codec_err.cfg: parsed {n} vectors, TLC found {res.distinct} states")
     timings["Codec_err.cfg"] = {"tlc_s": round(res.wall_s, 1), "bind_s": round(time.time() - t0 - res.wall_s, 1), "vectors": n}
-    # probe: without the escape the known scenario must be reachable in the model
-    res = run_tlc("Codec", "Codec_probe.cfg", "c15-Codec_probe", timeout_s=120, coverage=False, deadlock=False)
-    require_ok(res, "probe for the known key-coercion scenario")
-    ctx.add_tlc(res, "Codec.tla Codec_probe.cfg: RoundTrip WITHOUT the known-defect escape (expected: violated)")
+    # model regression probe: the PINNED ORIGINAL (FixKeys = FALSE) without the escape must reach the key coercion
+    pname = "c15-Codec_probe"
+    res = run_tlc("Codec", variant_cfg("Codec_probe.cfg", pname, False), pname, timeout_s=120, coverage=False, deadlock=False)
+    require_ok(res, "probe for the key-coercion scenario of the pinned original")
+    ctx.add_tlc(res, "Codec.tla Codec_probe.cfg FixKeys=False: RoundTrip WITHOUT the known-defect escape (expected: violated)")
     reachable = (not res.ok) and res.violated == "InvRoundTripNoEscape"
     coerces = real_code_coerces()
-    ctx.notes["probe"] = {"model_reaches_key_coercion": reachable, "real_code_coerces_keys": coerces,
+    ctx.notes["probe"] = {"variant_CodecFixKeys": FIX_KEYS, "pinned_original_model_reaches_key_coercion": reachable,
+                          "real_code_coerces_keys": coerces,
                           "counterexample": (violated_invariants(res.out_path) or [("", "")])[0][1][:300]}
-    if not reachable and coerces:
-        raise MachineryError("probe: Codec.tla no longer reaches the known non-string-key scenario although the real "
-                             f"code still coerces keys; the escape KnownNonStrKey would hide nothing real ({res.out_path})")
-    if reachable and not coerces:
-        ctx.violation("model-mismatch", "Codec.tla still transcribes key coercion but the real code no longer coerces "
-                                        "{1: 'a'}: the model is stale", {"kind": "tlc", "cfg": "Codec_probe.cfg"})
+    if not reachable:
+        raise MachineryError("probe: Codec.tla with FixKeys=FALSE no longer reaches the non-string-key coercion scenario "
+                             f"(the pinned-original transcription is broken; {res.out_path})")
+    if FIX_KEYS and coerces:
+        # variant says repaired, the real code still (or again) coerces: a regression of the code, reported by the
+        # binding under non-string-dict-key for every such value; state it once here as well
+        ctx.violation(SIG_KEYS, "variant.json says CodecFixKeys but the real serializer turns {1: 'a'} into {'1': 'a'}",
+                      {"kind": "codec", "value_repr": "dict{int:1=>str:'a'}", "value_expr": "{1: 'a'}", "serialized": None})
+    if not FIX_KEYS and not coerces:
+        ctx.violation("model-mismatch", "variant.json pins the original (CodecFixKeys false) but the real code no longer "
+                                        "coerces {1: 'a'}: the variant is stale", {"kind": "tlc", "cfg": "Codec_probe.cfg"})
+    if not ctx.quick:
+        # the whole pinned-original model still satisfies its invariants with the escape (no binding: the code moved on)
+        run_model(ctx, "Codec_d1_full.cfg", 300, fix_keys=not FIX_KEYS, tag="-othervariant")
     # vacuity
-    if not (st.by_path.get("plain") and st.by_path.get("envelope") and st.by_path.get("reject") and st.look and st.known):
+    if not (st.by_path.get("plain") and st.by_path.get("envelope") and st.by_path.get("reject") and st.look
+            and (st.known or FIX_KEYS)):
         raise MachineryError(f"vacuous enumeration: paths {st.by_path}, look-alikes {st.look}, known {st.known}")
     ctx.notes["tlc_and_binding_timings"] = timings
 
